@@ -444,3 +444,89 @@ def same_shape(a, b):
     if isinstance(a, list) and isinstance(b, list) and len(a) == len(b) and a and all(is_tm(x) for x in a + b):
         return all(_erase(x) == _erase(y) for x, y in zip(a, b))
     return False
+
+
+# ---------------------------------------------------------------- O4: structural induction theorem of a datatype
+def _implies(a, b):
+    return S.mk_comb(('const', 'implies', S.funs(S.BOOL, S.BOOL, S.BOOL)), a, b)
+
+
+def _forall(v, body):
+    return ('comb', ('const', 'all', S.fun(S.fun(v[2], S.BOOL), S.BOOL)), ('abs', v[1], v[2], S.abstract(body, v)))
+
+
+def datatype_instances(name, T, acc=None):
+    """all occurrences (as plain types) of the type constructor `name` inside T, outermost first"""
+    acc = [] if acc is None else acc
+    if T[0] == 'tc':
+        if T[1] == name:
+            acc.append(T)
+        for a in T[2]:
+            datatype_instances(name, a, acc)
+    return acc
+
+
+def expected_induct(name, args, constrs):
+    """textbook structural induction over the declared type D = (args) name with P :: D => bool:
+    one premise per constructor, !a1..an. P ai (for exactly those ai :: D, in order) --> P (C a1..an); conclusion P x.
+    An argument at another instance of `name` (non-uniform recursion) gets NO hypothesis: P cannot be applied to it."""
+    D = ('tc', name, tuple(('tv', a) for a in args))
+    P = ('var', 'P', S.fun(D, S.BOOL))
+    prems = []
+    for cname, cT, _, anames in constrs:
+        argTs = []
+        U = cT
+        while U[0] == 'tc' and U[1] == 'fun' and len(argTs) < len(anames):
+            argTs.append(U[2][0])
+            U = U[2][1]
+        vs = [('var', n, A) for n, A in zip(anames, argTs)]
+        body = ('comb', P, S.mk_comb(('const', cname, cT), *vs))
+        for v in reversed([v for v in vs if v[2] == D]):
+            body = _implies(('comb', P, v), body)
+        for v in reversed(vs):
+            body = _forall(v, body)
+        prems.append(body)
+    th = ('comb', P, ('var', 'x', D))
+    for p in reversed(prems):
+        th = _implies(p, th)
+    return th
+
+
+def _count_P_applications(s, acc):
+    """types of the arguments P is applied to, anywhere in s"""
+    stack = [s]
+    while stack:
+        x = stack.pop()
+        if x[0] == 'comb':
+            if x[1][0] == 'var' and x[1][1] == 'P':
+                acc.append(x[1][2])
+            stack.append(x[1])
+            stack.append(x[2])
+        elif x[0] == 'abs':
+            stack.append(x[3])
+    return acc
+
+
+def induct_problems(fields, rexts):
+    """fields of an accepted type.ind item + its extensions -> (key, text) problems of <name>_induct"""
+    name = fields['name']
+    got = [e for e in rexts if e[0] == 'theorem' and e[1] == name + '_induct']
+    if len(got) != 1:
+        return [('induct-theorem-missing-or-repeated', 'theorem %s_induct: generated %d times' % (name, len(got)))]
+    e = got[0]
+    if e[2]:
+        return [('induct-theorem-has-hypotheses', 'theorem %s_induct: carries %d hypotheses' % (name, len(e[2])))]
+    want = expected_induct(name, fields['args'], fields['constrs'])
+    if S.aeq(e[3], want):
+        return []
+    D = ('tc', name, tuple(('tv', a) for a in fields['args']))
+    n_got = len(_count_P_applications(e[3], []))
+    n_want = len(_count_P_applications(want, []))
+    if n_got > n_want:
+        how = 'induction-hypothesis-for-a-non-recursive-argument'
+    elif n_got < n_want:
+        how = 'induction-hypothesis-missing'
+    else:
+        how = 'differs-from-structural-induction'
+    return [(how, 'theorem %s_induct: is %s, structural induction over %s is %s' % (
+        name, S.tm_str(e[3])[:300], S.ty_str(D), S.tm_str(want)[:300]))]
